@@ -395,6 +395,20 @@ def drv_pipeline(tier, rng):
             r['biases'] = [{'name': 'criteriaOmission', 'props': {'ratio': pipeline.PU // 2, 'max': 1, 'ordering': ordering, 'randomSeed': 17 + sd * 101}}]
             g.append(pcase(r, probe=False, methodref=False, group={'id': 'x', 'rel': 'c15freq', 'p': 'C15', 'ordering': ordering}))
         groups.append(g)
+    # seeded reference-criterion strategies over many seeds (C18): importance 1 : 4 : 16, ranges 1 : 2 : 4 identify the reference
+    for strategy in ('randomUniform', 'randomWeighted'):
+        P = pipeline.PU
+        base = {'preferenceFunction': 'majorityHeuristic',
+                'knownAlternatives': [{'id': 'a1', 'criteria': {'c1': 0, 'c2': 0, 'c3': 0}}, {'id': 'a2', 'criteria': {'c1': P, 'c2': 2 * P, 'c3': 4 * P}}],
+                'choseToMake': ['a1', 'a2'], 'criteria': [{'id': c, 'type': 'gain'} for c in ('c1', 'c2', 'c3')],
+                'methodParameters': {'weights': {'c1': P, 'c2': 4 * P, 'c3': 16 * P}, 'drawResolution': 'allow'}}
+        g = []
+        for sd in range(300 if tier == 'quick' else 3000):
+            r = copy.deepcopy(base)
+            r['biases'] = [{'name': 'criteriaConcealment', 'props': {'randomSeed': 5, 'referenceCriterionType': strategy,
+                                                                     'newCriterionRandomSeed': {'int': 23 + sd * 97}}}]
+            g.append(pcase(r, probe=False, methodref=False, group={'id': 'x', 'rel': 'c18freq', 'p': 'C18', 'strategy': strategy}))
+        groups.append(g)
     # single omissions that do remove something (second pass compares with the reduced request, C15)
     for mth in pipeline.METHODS:
         for _ in range(10 if tier == 'quick' else 150):
@@ -980,7 +994,7 @@ PROPS = {
             'rule': 'non-trivial = accepted request with at least one requested bias; distinct by request (seed included)'},
     'C19': {'level_text': 'reference point within the admissible set (coefficient-weighted best/worst, cross-multiplied for cost), scaling = 1/range, mapped differences through linear gain/loss exactly (either branch within rounding of 0 after real-valued biases), inline: new = bound(v + range*coef), applied differences = new - old, untouched not-considered unless asked, zero functions = identity; new criterion: mid + half * importance-weighted mean (exact where small, interval otherwise), report = next state', 'level_note': 'expFromZero: sign / zero-multiplier clauses only', 'families': ['pipeline'], 'nontrivial': lambda o: any(e.get('fired') and 'perReferencePointsDifferences' in str(e.get('report')) for e in o.get('events', [])),
             'rule': 'non-trivial = request in which an anchoring bias fired; distinct by request'},
-    'C18': {'level_text': "one new gain criterion appended with an unused id, values for everybody, old values and parameters untouched, new weight a fraction of a reference criterion's weight whose scaled range is the reported range, Choquet capacities extended consistently, concealed values inside the bounded scaled range, mixed value = ratio*c1+(1-ratio)*c2 of two distinct rescaled criteria (cross-multiplied rescaling check against some reference target), no-op below two criteria", 'level_note': 'reference criterion decided existentially among the existing criteria', 'families': ['pipeline'], 'nontrivial': lambda o: any(e.get('fired') and ('addedCriteria' in str(e.get('report')) or 'component1' in str(e.get('report'))) for e in o.get('events', [])),
+    'C18': {'level_text': "one new gain criterion appended with an unused id, values for everybody, old values and parameters untouched, new weight a fraction of a reference criterion's weight whose scaled range is the reported range, Choquet capacities extended consistently, concealed values inside the bounded scaled range, mixed value = ratio*c1+(1-ratio)*c2 of two distinct rescaled criteria (cross-multiplied rescaling check against some reference target), no-op below two criteria", 'level_note': 'reference criterion: importanceRatio strategy computed in the spec on exact data (ImportanceRef: weakest-first cumulated importance reaching newCriterionImportance x total); randomUniform / randomWeighted judged by their documented frequencies over 300 (thorough 3000) seeds (about n/3 each; 16 : 4 : 1 for importances 1 : 4 : 16); otherwise existentially among the existing criteria', 'families': ['pipeline'], 'nontrivial': lambda o: any(e.get('fired') and ('addedCriteria' in str(e.get('report')) or 'component1' in str(e.get('report'))) for e in o.get('events', [])),
             'rule': 'non-trivial = request in which a concealment or mixing bias fired; distinct by request'},
     'C15': {'level_text': "count = SplitCount, omitted within declared, partition, importance order under the method's documented importance (Importance.tla, exact states only), kept parameters / capacities / thresholds unchanged (listener algebra), twin = the request with the omitted criteria deleted (second pass) agreeing per alternative, probability orderings' first-position frequencies over 300 (3000) seeds", 'level_note': 'importance comparisons only where no earlier bias produced real numbers', 'families': ['pipeline'], 'nontrivial': lambda o: any(e.get('fired') and 'omittedCriteria' in str(e.get('report')) for e in o.get('events', [])),
             'rule': 'non-trivial = request in which a criteria-omission bias fired; distinct by request'},
